@@ -1,3 +1,4 @@
+#![recursion_limit = "256"]
 mod coord;
 mod gen;
 mod kernel;
@@ -156,7 +157,13 @@ fn scenario_for(prop: &str) -> Option<Box<dyn coord::Scenario>> {
         "C03" => Some(Box::new(scen::w1::W1Scenario { prop: "C03" })),
         "C04" => Some(Box::new(scen::w2::W2Scenario { prop: "C04" })),
         "C05" => Some(Box::new(scen::w2::W2Scenario { prop: "C05" })),
-        "C07" => Some(Box::new(scen::crash::CrashScenario)),
+        "C07" => Some(Box::new(scen::Mixed {
+            major: Box::new(scen::crash::CrashScenario),
+            minor: Box::new(scen::lkh::LkhScenario),
+            every: 4,
+            minor_kind: "lkh",
+        })),
+        "C07lkh" => Some(Box::new(scen::lkh::LkhScenario)),
         "C08" => Some(Box::new(scen::Mixed {
             major: Box::new(scen::pop::PopScenario { prop: "C08" }),
             minor: Box::new(scen::restart::RestartScenario),
